@@ -140,7 +140,7 @@ func VerifC39Memory() {
 			held += int64(taken)
 			cur, size := s.reqMemSem.Observe()
 			verifAssert(cur <= size, "accounted-request-memory-within-limit")
-			verifAssert(cur == held, "accounted-equals-held")
+			// (no cur == held here: `held` is harness bookkeeping updated after acquire returns, another request may be admitted in between)
 			verifYield()
 			held -= int64(taken)
 			served++
